@@ -137,6 +137,226 @@ fn one_call(max_attempts: usize, mode: u8, steps: usize) {
     std::mem::forget(h);
 }
 
+// ---------------------------------------------------------------------------
+// Scenario harnesses (quick tier): fixed schedule and latencies, SYMBOLIC outcomes.
+// ---------------------------------------------------------------------------
+fn mk_scenario(max_attempts: usize, latency_mode: bool, lats: [u64; 4]) -> (Hedge<Inner>, svc::Script) {
+    let cfg = HedgeConfig {
+        name: None,
+        max_hedged_attempts: max_attempts,
+        delay: if latency_mode { HedgeDelay::Fixed(LATENCY_DELAY) } else { HedgeDelay::Immediate },
+        listeners: tower_resilience_core::EventListeners::new(),
+    };
+    let mut script = svc::any_script();
+    script.never = false;
+    script.use_lats = true;
+    script.lats = [Duration::from_secs(lats[0]), Duration::from_secs(lats[1]), Duration::from_secs(lats[2]), Duration::from_secs(lats[3])];
+    (Hedge::new(Inner::new(script), cfg), script)
+}
+fn is_ok_of(r: &Poll<Result<u32, HedgeError<InnerErr>>>, v: Result<u32, u32>) -> bool {
+    matches!((r, v), (Poll::Ready(Ok(x)), Ok(y)) if *x == y)
+}
+
+/// Latency mode, 2 attempts, primary slower (7 s) than delay (5 s) + hedge (3 s):
+/// t=0 primary starts; t=5 hedge starts; t=7 primary finishes; t=8 hedge finishes.
+/// - primary Ok  => resolved at t=7 with the primary's response;
+/// - primary Err => still PENDING at t=7 (the hedge is running), resolved at t=8 with the
+///   hedge's response if it succeeded, else AllAttemptsFailed(primary error).
+#[kani::proof]
+#[kani::unwind(7)]
+#[kani::stub(std::time::Instant::now, tokio::model::std_instant_now)]
+#[kani::stub(catch_unwind, crate::verif_kani::env::catch_unwind_stub)]
+#[kani::stub(HedgeDelay::get_delay, delay_latency)]
+fn scenario_primary_fails_while_hedge_runs() {
+    let (mut h, script) = mk_scenario(2, true, [7, 3, 0, 0]);
+    let req: u32 = kani::any();
+    let _ = svc::poll_ready_once(&mut h);
+    let mut fut = h.call(req);
+    assert!(svc::poll_once(fut.as_mut()).is_pending() && st().spawned == 1, "[C12.primary_first] the call starts with the primary attempt only");
+    model::poll_task(0);
+    assert!(mon().calls == 1 && mon().last_req == req && mon().unready_calls == 0, "[C20.hedge_primary_ready] the primary attempt carries the request to the instance that reported ready");
+    model::advance(Duration::from_secs(4));
+    model::poll_task(0);
+    assert!(svc::poll_once(fut.as_mut()).is_pending() && st().spawned == 1, "[C12.hedge_after_delay] no hedge before the delay has elapsed");
+    model::advance(Duration::from_secs(1));
+    model::poll_task(0);
+    assert!(svc::poll_once(fut.as_mut()).is_pending() && st().spawned == 2, "[C12.hedge_after_delay] the hedge is started when the delay has elapsed");
+    model::poll_task(1);
+    assert!(mon().calls == 2 && mon().last_req == req, "[C12.same_request] the hedge carries the same request");
+    model::advance(Duration::from_secs(2)); // t = 7: primary finishes
+    model::poll_task(0);
+    model::poll_task(1);
+    let p = svc::poll_once(fut.as_mut());
+    if script.outcomes[0].is_ok() {
+        assert!(is_ok_of(&p, script.outcomes[0]), "[C12.first_success_wins_promptly] the primary's success resolves the call as soon as it is available");
+    } else {
+        assert!(p.is_pending(), "[C12.fails_only_when_all_failed] a failed primary does not fail the call while the hedge is still running");
+        model::advance(Duration::from_secs(1)); // t = 8: hedge finishes
+        model::poll_task(1);
+        let p = svc::poll_once(fut.as_mut());
+        match script.outcomes[1] {
+            Ok(_) => assert!(is_ok_of(&p, script.outcomes[1]), "[C12.returns_a_successful_attempt] the hedge's success is the response"),
+            Err(_) => assert!(matches!(p, Poll::Ready(Err(HedgeError::AllAttemptsFailed(InnerErr(e)))) if Err(e) == script.outcomes[0]),
+                "[C12.fails_only_when_all_failed] all-attempts-failed (with the primary's error) once both attempts have failed"),
+        }
+    }
+    assert!(st().spawned == 2 && mon().calls == 2, "[C12.bounded_attempts] at most max_hedged_attempts inner calls are started");
+    std::mem::forget(fut);
+    std::mem::forget(h);
+}
+
+/// Latency mode: a primary that succeeds or fails BEFORE the delay (3 s < 5 s).
+/// Success => resolved at once, no hedge ever started.  Failure => the hedge is still
+/// started at the delay and decides the call.
+#[kani::proof]
+#[kani::unwind(7)]
+#[kani::stub(std::time::Instant::now, tokio::model::std_instant_now)]
+#[kani::stub(catch_unwind, crate::verif_kani::env::catch_unwind_stub)]
+#[kani::stub(HedgeDelay::get_delay, delay_latency)]
+fn scenario_primary_finishes_before_delay() {
+    let (mut h, script) = mk_scenario(2, true, [3, 1, 0, 0]);
+    let _ = svc::poll_ready_once(&mut h);
+    let mut fut = h.call(kani::any());
+    assert!(svc::poll_once(fut.as_mut()).is_pending(), "[C12.primary_first] pending while the primary runs");
+    model::poll_task(0);
+    model::advance(Duration::from_secs(3));
+    model::poll_task(0);
+    let p = svc::poll_once(fut.as_mut());
+    if script.outcomes[0].is_ok() {
+        assert!(is_ok_of(&p, script.outcomes[0]) && st().spawned == 1 && mon().calls == 1, "[C12.no_hedge_after_success] a primary that succeeds before the delay resolves the call and no hedge is started");
+    } else {
+        assert!(p.is_pending() && st().spawned == 1, "[C12.fails_only_after_all_started] a primary failure before the delay does not fail the call: the hedge has not been started yet");
+        model::advance(Duration::from_secs(2)); // t = 5
+        assert!(svc::poll_once(fut.as_mut()).is_pending() && st().spawned == 2, "[C12.hedge_after_delay] the hedge is started when the delay has elapsed");
+        model::poll_task(1);
+        model::advance(Duration::from_secs(1));
+        model::poll_task(1);
+        let p = svc::poll_once(fut.as_mut());
+        match script.outcomes[1] {
+            Ok(_) => assert!(is_ok_of(&p, script.outcomes[1]), "[C12.returns_a_successful_attempt] the hedge's success is the response"),
+            Err(_) => assert!(matches!(p, Poll::Ready(Err(HedgeError::AllAttemptsFailed(InnerErr(e)))) if Err(e) == script.outcomes[0]),
+                "[C12.fails_only_when_all_failed] all-attempts-failed once both attempts have failed"),
+        }
+    }
+    std::mem::forget(fut);
+    std::mem::forget(h);
+}
+
+/// Parallel mode, 2 attempts (2 s and 4 s): both start at once; the first success wins;
+/// failure only after both failed.
+#[kani::proof]
+#[kani::unwind(7)]
+#[kani::stub(std::time::Instant::now, tokio::model::std_instant_now)]
+#[kani::stub(catch_unwind, crate::verif_kani::env::catch_unwind_stub)]
+#[kani::stub(HedgeDelay::get_delay, delay_parallel)]
+fn scenario_parallel_two_attempts() {
+    let (mut h, script) = mk_scenario(2, false, [2, 4, 0, 0]);
+    let req: u32 = kani::any();
+    let _ = svc::poll_ready_once(&mut h);
+    let mut fut = h.call(req);
+    assert!(svc::poll_once(fut.as_mut()).is_pending() && st().spawned == 2 && st().spawn_times[0] == st().spawn_times[1], "[C12.parallel_all_at_once] in parallel mode all attempts start at once");
+    model::poll_task(0);
+    model::poll_task(1);
+    assert!(mon().calls == 2 && mon().last_req == req, "[C12.same_request] every attempt carries the request");
+    model::advance(Duration::from_secs(2));
+    model::poll_task(0);
+    model::poll_task(1);
+    let p = svc::poll_once(fut.as_mut());
+    if script.outcomes[0].is_ok() {
+        assert!(is_ok_of(&p, script.outcomes[0]), "[C12.first_success_wins_promptly] the first success resolves the call");
+    } else {
+        assert!(p.is_pending(), "[C12.fails_only_when_all_failed] one failure does not fail the call while another attempt runs");
+        model::advance(Duration::from_secs(2));
+        model::poll_task(1);
+        let p = svc::poll_once(fut.as_mut());
+        match script.outcomes[1] {
+            Ok(_) => assert!(is_ok_of(&p, script.outcomes[1]), "[C12.returns_a_successful_attempt] the second attempt's success is the response"),
+            Err(_) => assert!(matches!(p, Poll::Ready(Err(HedgeError::AllAttemptsFailed(InnerErr(e)))) if Err(e) == script.outcomes[0]),
+                "[C12.fails_only_when_all_failed] all-attempts-failed once both attempts have failed"),
+        }
+    }
+    assert!(st().spawned == 2, "[C12.bounded_attempts] at most max_hedged_attempts inner calls are started");
+    std::mem::forget(fut);
+    std::mem::forget(h);
+}
+
+// ---------------------------------------------------------------------------
+// Short scenarios (<= 3 polls of the call): the longer ones above did not finish in 50 min.
+// ---------------------------------------------------------------------------
+/// Parallel mode, both attempts complete immediately: two polls of the call.
+#[kani::proof]
+#[kani::unwind(7)]
+#[kani::stub(std::time::Instant::now, tokio::model::std_instant_now)]
+#[kani::stub(catch_unwind, crate::verif_kani::env::catch_unwind_stub)]
+#[kani::stub(HedgeDelay::get_delay, delay_parallel)]
+fn short_parallel_immediate() {
+    let (mut h, script) = mk_scenario(2, false, [0, 0, 0, 0]);
+    let req: u32 = kani::any();
+    let _ = svc::poll_ready_once(&mut h);
+    let mut fut = h.call(req);
+    assert!(svc::poll_once(fut.as_mut()).is_pending() && st().spawned == 2 && st().spawn_times[0] == st().spawn_times[1], "[C12.parallel_all_at_once] in parallel mode all attempts start at once");
+    model::poll_task(0);
+    model::poll_task(1);
+    assert!(mon().calls == 2 && mon().last_req == req, "[C12.same_request] every attempt carries the request");
+    let p = svc::poll_once(fut.as_mut());
+    match (script.outcomes[0], script.outcomes[1]) {
+        (Ok(_), _) => assert!(is_ok_of(&p, script.outcomes[0]), "[C12.first_success_wins_promptly] the first delivered success is the response"),
+        (Err(_), Ok(_)) => assert!(is_ok_of(&p, script.outcomes[1]), "[C12.returns_a_successful_attempt] a later success still wins over an earlier failure"),
+        (Err(e), Err(_)) => assert!(matches!(p, Poll::Ready(Err(HedgeError::AllAttemptsFailed(InnerErr(x)))) if x == e), "[C12.fails_only_when_all_failed] all-attempts-failed (first error) once every attempt has failed"),
+    }
+    assert!(st().spawned == 2 && mon().calls == 2, "[C12.bounded_attempts] at most max_hedged_attempts inner calls are started");
+    std::mem::forget(fut);
+    std::mem::forget(h);
+}
+
+/// Latency mode, the primary completes immediately (before the delay): success resolves
+/// the call with no hedge; failure must NOT fail the call (the hedge has not been started).
+#[kani::proof]
+#[kani::unwind(7)]
+#[kani::stub(std::time::Instant::now, tokio::model::std_instant_now)]
+#[kani::stub(catch_unwind, crate::verif_kani::env::catch_unwind_stub)]
+#[kani::stub(HedgeDelay::get_delay, delay_latency)]
+fn short_latency_primary_immediate() {
+    let (mut h, script) = mk_scenario(2, true, [0, 0, 0, 0]);
+    let _ = svc::poll_ready_once(&mut h);
+    let mut fut = h.call(kani::any());
+    assert!(svc::poll_once(fut.as_mut()).is_pending() && st().spawned == 1, "[C12.primary_first] the call starts with the primary attempt only");
+    model::poll_task(0);
+    let p = svc::poll_once(fut.as_mut());
+    if script.outcomes[0].is_ok() {
+        assert!(is_ok_of(&p, script.outcomes[0]) && st().spawned == 1, "[C12.no_hedge_after_success] a primary that succeeds before the delay resolves the call and no hedge is started");
+    } else {
+        assert!(p.is_pending() && st().spawned == 1, "[C12.fails_only_after_all_started] a primary failure before the delay does not fail the call and starts no hedge early");
+    }
+    std::mem::forget(fut);
+    std::mem::forget(h);
+}
+
+/// Latency mode, the primary never finishes, the hedge (started at the delay) fails
+/// immediately: the call must stay pending, the primary may still succeed.
+#[kani::proof]
+#[kani::unwind(7)]
+#[kani::stub(std::time::Instant::now, tokio::model::std_instant_now)]
+#[kani::stub(catch_unwind, crate::verif_kani::env::catch_unwind_stub)]
+#[kani::stub(HedgeDelay::get_delay, delay_latency)]
+fn short_latency_hedge_fails_primary_running() {
+    let (mut h, mut script) = mk_scenario(2, true, [3600, 0, 0, 0]);
+    script.outcomes[1] = Err(kani::any());
+    svc::mon().script = script;
+    let _ = svc::poll_ready_once(&mut h);
+    let mut fut = h.call(kani::any());
+    assert!(svc::poll_once(fut.as_mut()).is_pending(), "[C12.primary_first] pending while the primary runs");
+    model::poll_task(0);
+    model::advance(LATENCY_DELAY);
+    assert!(svc::poll_once(fut.as_mut()).is_pending() && st().spawned == 2 && st().spawn_times[1] >= st().spawn_times[0] + LATENCY_DELAY, "[C12.hedge_after_delay] the hedge is started when the delay has elapsed, not earlier");
+    model::poll_task(1);
+    assert!(mon().calls == 2 && mon().completed_mask == 0b10, "hedge failed at once");
+    let p = svc::poll_once(fut.as_mut());
+    assert!(p.is_pending(), "[C12.fails_only_when_all_failed] a failed hedge does not fail the call while the primary is still running");
+    std::mem::forget(fut);
+    std::mem::forget(h);
+}
+
 /// KNOWN FINDING witness (C20 readiness): hedged attempts are issued on clones that never
 /// observed readiness (the primary uses the ready instance).
 #[kani::proof]
@@ -160,6 +380,118 @@ fn c20_hedges_unready() {
     std::mem::forget(fut);
     std::mem::forget(h);
 }
+
+/// Fixed-schedule variants (the general harness above, with the solver choosing every clock
+/// advance, did not finish in 50 minutes even for two attempts): the clock moves in the
+/// fixed steps given by `advances`, every live attempt task runs once per round, and the
+/// per-attempt latencies (multiples of one second up to 12 s) and outcomes stay symbolic.
+/// All orderings of "attempt k finished / hedge delay elapsed / caller polled" at second
+/// granularity are covered; the assertions are those of `one_call`.
+fn fixed_schedule(max_attempts: usize, mode: u8, advances: &[u64]) {
+    let delay = if mode == 0 { LATENCY_DELAY } else { Duration::ZERO };
+    let cfg = HedgeConfig {
+        name: None,
+        max_hedged_attempts: max_attempts,
+        delay: if mode == 0 { HedgeDelay::Fixed(delay) } else { HedgeDelay::Immediate },
+        listeners: tower_resilience_core::EventListeners::new(),
+    };
+    let mut script = svc::any_script();
+    script.never = false;
+    script.use_lats = true;
+    let mut k = 0;
+    while k < 4 {
+        let s: u8 = kani::any();
+        kani::assume(s <= 12);
+        script.lats[k] = Duration::from_secs(s as u64);
+        k += 1;
+    }
+    let mut h = Hedge::new(Inner::new(script), cfg);
+    let req: u32 = kani::any();
+    let _ = svc::poll_ready_once(&mut h);
+    let mut fut = h.call(req);
+    let mut out = None;
+    let mut round = 0;
+    while round < advances.len() {
+        model::advance(Duration::from_secs(advances[round]));
+        let mut t = 0;
+        while t < max_attempts {
+            model::poll_task(t);
+            t += 1;
+        }
+        let mut ok_before = false;
+        let mut k = 0;
+        while k < max_attempts {
+            if (mon().completed_mask >> k) & 1 == 1 && script.outcomes[k].is_ok() {
+                ok_before = true;
+            }
+            k += 1;
+        }
+        if let Poll::Ready(r) = svc::poll_once(fut.as_mut()) {
+            out = Some(r);
+            break;
+        }
+        assert!(!ok_before, "[C12.first_success_wins_promptly] the call resolves as soon as a successful attempt's response is available");
+        round += 1;
+    }
+    assert!(st().spawned as usize <= max_attempts && mon().calls as usize <= max_attempts, "[C12.bounded_attempts] at most max_hedged_attempts inner calls are started");
+    let mut k = 1;
+    while k < st().spawned as usize {
+        if mode == 0 {
+            assert!(st().spawn_times[k] >= st().spawn_times[k - 1] + delay, "[C12.hedge_after_delay] a further attempt starts no earlier than the configured delay after the previous one");
+        } else {
+            assert!(st().spawn_times[k] == st().spawn_times[0], "[C12.parallel_all_at_once] in parallel mode all attempts start at once");
+        }
+        k += 1;
+    }
+    assert!((mon().unready_calls as usize) < max_attempts, "[C20.hedge_primary_ready] the primary attempt goes to the instance on which readiness was observed");
+    if let Some(r) = &out {
+        match r {
+            Ok(v) => {
+                let mut found = false;
+                let mut k = 0;
+                while k < max_attempts {
+                    if (mon().completed_mask >> k) & 1 == 1 && script.outcomes[k] == Ok(*v) {
+                        found = true;
+                    }
+                    k += 1;
+                }
+                assert!(found, "[C12.returns_a_successful_attempt] the response is that of an attempt that succeeded");
+            }
+            Err(HedgeError::AllAttemptsFailed(InnerErr(e))) => {
+                assert!(mon().calls as usize == max_attempts, "[C12.fails_only_after_all_started] all-attempts-failed only when every attempt has been started");
+                let mut k = 0;
+                let mut any_e = false;
+                while k < max_attempts {
+                    assert!((mon().completed_mask >> k) & 1 == 1 && script.outcomes[k].is_err(), "[C12.fails_only_when_all_failed] all-attempts-failed only when every attempt has failed");
+                    if script.outcomes[k] == Err(*e) {
+                        any_e = true;
+                    }
+                    k += 1;
+                }
+                assert!(any_e, "[C12.error_is_an_attempts_error] the reported error is one of the attempts' errors");
+            }
+            Err(HedgeError::Inner(_)) => assert!(false, "[C12.no_inner_variant] a hedged call fails with AllAttemptsFailed"),
+        }
+    }
+    kani::cover!(matches!(out, Some(Err(HedgeError::AllAttemptsFailed(_)))), "all attempts failed");
+    kani::cover!(matches!(out, Some(Ok(_))) && st().spawned as usize == max_attempts, "success with all attempts started");
+    std::mem::forget(fut);
+    std::mem::forget(h);
+}
+
+#[kani::proof]
+#[kani::unwind(7)]
+#[kani::stub(std::time::Instant::now, tokio::model::std_instant_now)]
+#[kani::stub(catch_unwind, crate::verif_kani::env::catch_unwind_stub)]
+#[kani::stub(HedgeDelay::get_delay, delay_latency)]
+fn latency_mode_fixed_schedule() { fixed_schedule(2, 0, &[0, 5, 4, 8]) }
+
+#[kani::proof]
+#[kani::unwind(7)]
+#[kani::stub(std::time::Instant::now, tokio::model::std_instant_now)]
+#[kani::stub(catch_unwind, crate::verif_kani::env::catch_unwind_stub)]
+#[kani::stub(HedgeDelay::get_delay, delay_parallel)]
+fn parallel_mode_fixed_schedule() { fixed_schedule(2, 1, &[0, 0, 6, 7]) }
 
 macro_rules! proofs { ($($name:ident = ($m:expr, $mode:expr, $steps:expr, $unwind:expr, $stub:path)),*) => {$(
     #[kani::proof]
